@@ -43,6 +43,7 @@ CONTENT = {
     'formfeed': formfeed,
     'continuation': continuation,
     'unicode': pf.unicode_names,
+    'compat': pf.compat_names,
 }
 
 
@@ -58,7 +59,7 @@ def variants(text, tier='quick'):
     """-> [(layout id, LF text (for independent tokenising), final text)]"""
     combos = [('plain', 'lf', True), ('plain', 'crlf', True), ('plain', 'cr', True),
               ('tabs', 'lf', True), ('formfeed', 'lf', True), ('continuation', 'lf', True),
-              ('unicode', 'lf', True), ('plain', 'lf', False)]
+              ('unicode', 'lf', True), ('compat', 'lf', True), ('plain', 'lf', False)]
     if tier != 'quick':
         combos += [('tabs', 'crlf', True), ('continuation', 'crlf', False), ('unicode', 'cr', True),
                    ('formfeed', 'crlf', True), ('plain', 'crlf', False)]
